@@ -5,6 +5,52 @@ package crypto
 // Contracts for govc (contract-based deductive verification; see /verif/DESIGN.md).
 // This file holds only comments and is compiled only with -tags verif.
 
+// ---- spec functions: the algorithm families of SupportedSymmetricAlgorithms() and the AES key size in the name ----
+
+//@ pure func kcCBCPad(a string) bool = a == "A128CBC" || a == "A192CBC" || a == "A256CBC"
+//@ pure func kcCBCNoPad(a string) bool = a == "A128CBC-NOPAD" || a == "A192CBC-NOPAD" || a == "A256CBC-NOPAD"
+//@ pure func kcGCM(a string) bool = a == "A128GCM" || a == "A192GCM" || a == "A256GCM"
+//@ pure func kcCBCHMAC(a string) bool = a == "A128CBC-HS256" || a == "A192CBC-HS384" || a == "A256CBC-HS512"
+//@ pure func kcKW(a string) bool = a == "A128KW" || a == "A192KW" || a == "A256KW"
+//@ pure func kcChaCha(a string) bool = a == "C20P" || a == "C20PKW" || a == "XC20P" || a == "XC20PKW"
+//@ pure func kcSymmetric(a string) bool = kcCBCPad(a) || kcCBCNoPad(a) || kcGCM(a) || kcCBCHMAC(a) || kcKW(a) || kcChaCha(a)
+//@ pure func kcAESKeySize(a string) int = (a[1] == '1' && a[2] == '2' && a[3] == '8') ? 16 : ((a[1] == '1' && a[2] == '9' && a[3] == '2') ? 24 : ((a[1] == '2' && a[2] == '5' && a[3] == '6') ? 32 : 0))
+
+//@ pure func kcKeyLenOK(a string, n int) bool = kcCBCHMAC(a) ? (n == ((a == "A128CBC-HS256") ? 32 : ((a == "A192CBC-HS384") ? 48 : 64))) : (kcChaCha(a) ? n == 32 : n == kcAESKeySize(a))
+//@ pure func kcNonceLen(a string) int = kcGCM(a) ? 12 : ((a == "C20P" || a == "C20PKW") ? 12 : ((a == "XC20P" || a == "XC20PKW") ? 24 : 16))
+//@ pure func kcTagLen(a string, keylen int) int = kcCBCHMAC(a) ? keylen / 2 : 16
+//@ pure func kcAsymEnc(a string) bool = a == "RSA1_5" || a == "RSA-OAEP" || a == "RSA-OAEP-256" || a == "RSA-OAEP-384" || a == "RSA-OAEP-512"
+//@ pure func kcSigRSA(a string) bool = a == "RS256" || a == "RS384" || a == "RS512"
+//@ pure func kcSigPSS(a string) bool = a == "PS256" || a == "PS384" || a == "PS512"
+//@ pure func kcSigEC(a string) bool = a == "ES256" || a == "ES384" || a == "ES512"
+//@ pure func kcSignature(a string) bool = kcSigRSA(a) || kcSigPSS(a) || kcSigEC(a) || a == "EdDSA"
+//@ pure func kcSHA(a string) int = (a[len(a)-3] == '2' && a[len(a)-2] == '5' && a[len(a)-1] == '6') ? 5 : ((a[len(a)-3] == '3' && a[len(a)-2] == '8' && a[len(a)-1] == '4') ? 6 : ((a[len(a)-3] == '5' && a[len(a)-2] == '1' && a[len(a)-1] == '2') ? 7 : 0))
+
+// ---- the Supported*Algorithms() lists are exactly the families named by the spec functions ----
+// (C03.list.*.elems gives one list element for every disjunct of kcSymmetric / kcAsymEnc / kcSignature: completeness;
+//  C03.list.*.sound: every list element satisfies the spec function.)
+
+//@ func SupportedSymmetricAlgorithms
+//@   tags C03 C07
+//@   modifies nothing
+//@   ensures [C03.list.sym.len] fresh(result) && len(result) == 19
+//@   ensures [C03.list.sym.elems] result[0] == "A128CBC" && result[1] == "A192CBC" && result[2] == "A256CBC" && result[3] == "A128CBC-NOPAD" && result[4] == "A192CBC-NOPAD" && result[5] == "A256CBC-NOPAD" && result[6] == "A128GCM" && result[7] == "A192GCM" && result[8] == "A256GCM" && result[9] == "A128CBC-HS256" && result[10] == "A192CBC-HS384" && result[11] == "A256CBC-HS512" && result[12] == "A128KW" && result[13] == "A192KW" && result[14] == "A256KW" && result[15] == "C20P" && result[16] == "C20PKW" && result[17] == "XC20P" && result[18] == "XC20PKW"
+//@   ensures [C03.list.sym.sound] forall i :: 0 <= i && i < len(result) ==> kcSymmetric(result[i])
+
+//@ func SupportedAsymmetricAlgorithms
+//@   tags C03 C07
+//@   modifies nothing
+//@   ensures [C03.list.asym.len] fresh(result) && len(result) == 5
+//@   ensures [C03.list.asym.elems] result[0] == "RSA1_5" && result[1] == "RSA-OAEP" && result[2] == "RSA-OAEP-256" && result[3] == "RSA-OAEP-384" && result[4] == "RSA-OAEP-512"
+//@   ensures [C03.list.asym.sound] forall i :: 0 <= i && i < len(result) ==> kcAsymEnc(result[i])
+
+//@ func SupportedSignatureAlgorithms
+//@   tags C03 C07
+//@   modifies nothing
+//@   ensures [C03.list.sig.len] fresh(result) && len(result) == 10
+//@   ensures [C03.list.sig.elems] result[0] == "RS256" && result[1] == "RS384" && result[2] == "RS512" && result[3] == "PS256" && result[4] == "PS384" && result[5] == "PS512" && result[6] == "ES256" && result[7] == "ES384" && result[8] == "ES512" && result[9] == "EdDSA"
+//@   ensures [C03.list.sig.sound] forall i :: 0 <= i && i < len(result) ==> kcSignature(result[i])
+
 //@ func expectedKeySize
 //@   tags C03 C07 C17
 //@   requires len(alg) >= 4
@@ -16,10 +62,17 @@ package crypto
 
 //@ func encryptSymmetricAEAD
 //@   tags C03 C07 C17
+//@   ghost sealed slice
 //@   requires aead != nil
 //@   modifies nothing
 //@   ensures [C03.aead.nonce] len(nonce) != aead.noncesize ==> (err == ErrInvalidNonce && ciphertext == nil && tag == nil)
 //@   ensures [C03.aead.split] len(nonce) == aead.noncesize ==> (err == nil && len(ciphertext) == len(plaintext) && len(tag) == aead.overhead)
+//@   ensures [C03.aead.split.ct] err == nil ==> (ciphertext.base == sealed.base && ciphertext.off == sealed.off && len(ciphertext) == len(sealed) - aead.overhead)
+//@   ensures [C03.aead.split.tag] err == nil ==> (tag.base == sealed.base && tag.off == sealed.off + len(sealed) - aead.overhead && len(tag) == aead.overhead)
+//@   ensures [C03.aead.fresh] err == nil ==> (fresh(ciphertext) && fresh(tag))
+//@   ensures [C03.aead.errs] err == nil || err == ErrInvalidNonce
+//@   at call Seal#0 ghost sealed = res0
+//@   at call Seal#0 assert [C03.aead.sealargs] arg0 == aead && arg1 == nil && arg2 == nonce && arg3 == plaintext && arg4 == associatedData
 
 //@ func decryptSymmetricAEAD
 //@   tags C03 C07 C17
@@ -27,7 +80,13 @@ package crypto
 //@   modifies nothing
 //@   ensures [C03.aead.dnonce] len(nonce) != aead.noncesize ==> (err == ErrInvalidNonce && plaintext == nil)
 //@   ensures [C03.aead.dtag] (len(nonce) == aead.noncesize && len(tag) != aead.overhead) ==> (err == ErrInvalidTag && plaintext == nil)
-//@   ensures err != nil ==> plaintext == nil
+//@   ensures [C03.aead.dnoout] err != nil ==> plaintext == nil
+//@   ensures [C03.aead.dlen] err == nil ==> len(plaintext) == len(ciphertext)
+//@   ensures [C03.aead.dfresh] plaintext == nil || fresh(plaintext)
+//@   at before call Open#0 assert [C03.aead.openargs] arg0 == aead && arg1 == nil && arg2 == nonce && arg4 == associatedData
+//@   at before call Open#0 assert [C03.aead.openbuf.len] len(arg3) == len(ciphertext) + len(tag)
+//@   at before call Open#0 assert [C03.aead.openbuf.ct] forall i :: 0 <= i && i < len(ciphertext) ==> arg3[i] == ciphertext[i]
+//@   at before call Open#0 assert [C03.aead.openbuf.tag] forall i :: 0 <= i && i < len(tag) ==> arg3[len(ciphertext) + i] == tag[i]
 //@   replay template decryptaead
 //@   replay val ctlen = len(ciphertext)
 //@   replay val ctcap = cap(ciphertext)
@@ -36,10 +95,18 @@ package crypto
 
 //@ func decryptSymmetricChaCha20Poly1305
 //@   tags C03 C07 C17
-//@   requires algorithm == "C20P" || algorithm == "C20PKW" || algorithm == "XC20P" || algorithm == "XC20PKW"
+//@   requires kcChaCha(algorithm)
 //@   modifies nothing
 //@   ensures [C03.chacha.dkey] len(key) != 32 ==> (err == ErrKeyTypeMismatch && plaintext == nil)
-//@   ensures err != nil ==> plaintext == nil
+//@   ensures [C03.chacha.dnonce] (len(key) == 32 && len(nonce) != ((algorithm == "C20P" || algorithm == "C20PKW") ? 12 : 24)) ==> (err == ErrInvalidNonce && plaintext == nil)
+//@   ensures [C03.chacha.dtag] (len(key) == 32 && len(nonce) == ((algorithm == "C20P" || algorithm == "C20PKW") ? 12 : 24) && len(tag) != 16) ==> (err == ErrInvalidTag && plaintext == nil)
+//@   ensures [C03.chacha.dnoout] err != nil ==> plaintext == nil
+//@   ensures [C03.chacha.dlen] err == nil ==> len(plaintext) == len(ciphertext)
+//@   ensures [C03.chacha.dfresh] plaintext == nil || fresh(plaintext)
+//@   at before call Open#0 assert [C03.chacha.openargs] arg1 == nil && arg2 == nonce && arg4 == associatedData
+//@   at before call Open#0 assert [C03.chacha.openbuf.len] len(arg3) == len(ciphertext) + len(tag)
+//@   at before call Open#0 assert [C03.chacha.openbuf.ct] forall i :: 0 <= i && i < len(ciphertext) ==> arg3[i] == ciphertext[i]
+//@   at before call Open#0 assert [C03.chacha.openbuf.tag] forall i :: 0 <= i && i < len(tag) ==> arg3[len(ciphertext) + i] == tag[i]
 //@   replay template decryptaead
 //@   replay val ctlen = len(ciphertext)
 //@   replay val ctcap = cap(ciphertext)
@@ -53,3 +120,577 @@ package crypto
 //@   ensures [C03.chacha.nonce] (len(key) == 32 && (algorithm == "C20P" || algorithm == "C20PKW") && len(nonce) != 12) ==> err == ErrInvalidNonce
 //@   ensures [C03.chacha.noncex] (len(key) == 32 && (algorithm == "XC20P" || algorithm == "XC20PKW") && len(nonce) != 24) ==> err == ErrInvalidNonce
 //@   ensures [C03.chacha.ok] (len(key) == 32 && (((algorithm == "C20P" || algorithm == "C20PKW") && len(nonce) == 12) || ((algorithm == "XC20P" || algorithm == "XC20PKW") && len(nonce) == 24))) ==> err == nil
+
+// ---- AES-CBC ----
+
+//@ func encryptSymmetricAESCBC
+//@   tags C03 C07 C17
+//@   requires kcCBCPad(algorithm) || kcCBCNoPad(algorithm)
+//@   modifies nothing
+//@   ensures [C03.cbc.key] len(key) != kcAESKeySize(algorithm) ==> (err == ErrKeyTypeMismatch && ciphertext == nil)
+//@   ensures [C03.cbc.nonce] (len(key) == kcAESKeySize(algorithm) && len(iv) != 16) ==> (err == ErrInvalidNonce && ciphertext == nil)
+//@   ensures [C03.cbc.ptlen] (len(key) == kcAESKeySize(algorithm) && len(iv) == 16 && kcCBCNoPad(algorithm) && len(plaintext) % 16 != 0) ==> (err == ErrInvalidPlaintextLength && ciphertext == nil)
+//@   ensures [C03.cbc.ok.nopad] (len(key) == kcAESKeySize(algorithm) && len(iv) == 16 && kcCBCNoPad(algorithm) && len(plaintext) % 16 == 0) ==> (err == nil && fresh(ciphertext) && len(ciphertext) == len(plaintext))
+//@   ensures [C03.cbc.ok.pad] (len(key) == kcAESKeySize(algorithm) && len(iv) == 16 && kcCBCPad(algorithm)) ==> (err == nil && fresh(ciphertext) && len(ciphertext) == len(plaintext) + 16 - len(plaintext) % 16)
+//@   ensures [C03.cbc.noout] err != nil ==> ciphertext == nil
+
+//@ func decryptSymmetricAESCBC
+//@   tags C03 C07 C17
+//@   requires kcCBCPad(algorithm) || kcCBCNoPad(algorithm)
+//@   modifies nothing
+//@   ensures [C03.cbc.dkey] len(key) != kcAESKeySize(algorithm) ==> (err == ErrKeyTypeMismatch && plaintext == nil)
+//@   ensures [C03.cbc.dnonce] (len(key) == kcAESKeySize(algorithm) && len(iv) != 16) ==> (err == ErrInvalidNonce && plaintext == nil)
+//@   ensures [C03.cbc.dctlen] (len(key) == kcAESKeySize(algorithm) && len(iv) == 16 && len(ciphertext) % 16 != 0) ==> (err == ErrInvalidCiphertextLength && plaintext == nil)
+//@   ensures [C03.cbc.dok.nopad] (len(key) == kcAESKeySize(algorithm) && len(iv) == 16 && len(ciphertext) % 16 == 0 && kcCBCNoPad(algorithm)) ==> (err == nil && fresh(plaintext) && len(plaintext) == len(ciphertext))
+//@   ensures [C03.cbc.dok.pad] (len(key) == kcAESKeySize(algorithm) && len(iv) == 16 && len(ciphertext) % 16 == 0 && kcCBCPad(algorithm)) ==> (err == nil || err == padding.ErrInvalidPKCS7Padding)
+//@   ensures [C03.cbc.dok.padlen] (err == nil && kcCBCPad(algorithm)) ==> (len(plaintext) <= len(ciphertext) && (len(ciphertext) > 0 ==> len(plaintext) < len(ciphertext)))
+//@   ensures [C03.cbc.dnoout] err != nil ==> plaintext == nil
+
+// ---- ChaCha20-Poly1305 (encrypt) ----
+
+//@ func encryptSymmetricChaCha20Poly1305
+//@   tags C03 C07 C17
+//@   ghost sealed slice
+//@   requires kcChaCha(algorithm)
+//@   modifies nothing
+//@   ensures [C03.chacha.key] len(key) != 32 ==> (err == ErrKeyTypeMismatch && ciphertext == nil && tag == nil)
+//@   ensures [C03.chacha.enonce] (len(key) == 32 && len(nonce) != ((algorithm == "C20P" || algorithm == "C20PKW") ? 12 : 24)) ==> (err == ErrInvalidNonce && ciphertext == nil && tag == nil)
+//@   ensures [C03.chacha.eok] (len(key) == 32 && len(nonce) == ((algorithm == "C20P" || algorithm == "C20PKW") ? 12 : 24)) ==> (err == nil && len(ciphertext) == len(plaintext) && len(tag) == 16)
+//@   ensures [C03.chacha.split.ct] err == nil ==> (ciphertext.base == sealed.base && ciphertext.off == sealed.off && len(ciphertext) == len(sealed) - 16)
+//@   ensures [C03.chacha.split.tag] err == nil ==> (tag.base == sealed.base && tag.off == sealed.off + len(sealed) - 16 && len(tag) == 16)
+//@   ensures [C03.chacha.fresh] err == nil ==> (fresh(ciphertext) && fresh(tag))
+//@   ensures [C03.chacha.noout] err != nil ==> (ciphertext == nil && tag == nil)
+//@   ensures [C03.chacha.errs] err == nil || err == ErrKeyTypeMismatch || err == ErrInvalidNonce
+//@   at call Seal#0 ghost sealed = res0
+//@   at call Seal#0 assert [C03.chacha.sealargs] arg1 == nil && arg2 == nonce && arg3 == plaintext && arg4 == associatedData
+
+// ---- AES-GCM ----
+
+//@ func encryptSymmetricAESGCM
+//@   tags C03 C07 C17
+//@   requires kcGCM(algorithm)
+//@   modifies nothing
+//@   ensures [C03.gcm.key] len(key) != kcAESKeySize(algorithm) ==> (err == ErrKeyTypeMismatch && ciphertext == nil && tag == nil)
+//@   ensures [C03.gcm.nonce] (len(key) == kcAESKeySize(algorithm) && len(nonce) != 12) ==> (err == ErrInvalidNonce && ciphertext == nil && tag == nil)
+//@   ensures [C03.gcm.ok] (len(key) == kcAESKeySize(algorithm) && len(nonce) == 12) ==> (err == nil && fresh(ciphertext) && fresh(tag) && len(ciphertext) == len(plaintext) && len(tag) == 16)
+//@   ensures [C03.gcm.noout] err != nil ==> (ciphertext == nil && tag == nil)
+//@   at call encryptSymmetricAEAD#0 assert [C03.gcm.args] arg1 == plaintext && arg2 == nonce && arg3 == associatedData
+
+//@ func decryptSymmetricAESGCM
+//@   tags C03 C07 C17
+//@   requires kcGCM(algorithm)
+//@   modifies nothing
+//@   ensures [C03.gcm.dkey] len(key) != kcAESKeySize(algorithm) ==> (err == ErrKeyTypeMismatch && plaintext == nil)
+//@   ensures [C03.gcm.dnonce] (len(key) == kcAESKeySize(algorithm) && len(nonce) != 12) ==> (err == ErrInvalidNonce && plaintext == nil)
+//@   ensures [C03.gcm.dtag] (len(key) == kcAESKeySize(algorithm) && len(nonce) == 12 && len(tag) != 16) ==> (err == ErrInvalidTag && plaintext == nil)
+//@   ensures [C03.gcm.dnoout] err != nil ==> plaintext == nil
+//@   ensures [C03.gcm.dlen] err == nil ==> len(plaintext) == len(ciphertext)
+//@   ensures [C03.gcm.dfresh] plaintext == nil || fresh(plaintext)
+//@   at call decryptSymmetricAEAD#0 assert [C03.gcm.dargs] arg1 == ciphertext && arg2 == nonce && arg3 == tag && arg4 == associatedData
+
+// ---- AES-CBC-HMAC-SHA2 ----
+
+//@ func getAESCBCHMACCipher
+//@   tags C03 C07 C17
+//@   modifies nothing
+//@   ensures [C03.cbchmac.keylen] (kcCBCHMAC(algorithm) && len(key) != ((algorithm == "A128CBC-HS256") ? 32 : ((algorithm == "A192CBC-HS384") ? 48 : 64))) ==> (err == ErrKeyTypeMismatch && aead == nil)
+//@   ensures [C03.cbchmac.ok] (kcCBCHMAC(algorithm) && len(key) == ((algorithm == "A128CBC-HS256") ? 32 : ((algorithm == "A192CBC-HS384") ? 48 : 64))) ==> (err == nil && aead != nil && aead.noncesize == 16 && aead.overhead == len(key) / 2)
+//@   ensures [C03.cbchmac.noout] err != nil ==> aead == nil
+//@   ensures [C03.cbchmac.errs] kcCBCHMAC(algorithm) ==> (err == nil || err == ErrKeyTypeMismatch)
+
+//@ func encryptSymmetricAESCBCHMAC
+//@   tags C03 C07 C17
+//@   requires kcCBCHMAC(algorithm)
+//@   modifies nothing
+//@   ensures [C03.cbchmac.key] len(key) != ((algorithm == "A128CBC-HS256") ? 32 : ((algorithm == "A192CBC-HS384") ? 48 : 64)) ==> (err == ErrKeyTypeMismatch && ciphertext == nil && tag == nil)
+//@   ensures [C03.cbchmac.nonce] (len(key) == ((algorithm == "A128CBC-HS256") ? 32 : ((algorithm == "A192CBC-HS384") ? 48 : 64)) && len(nonce) != 16) ==> (err == ErrInvalidNonce && ciphertext == nil && tag == nil)
+//@   ensures [C03.cbchmac.eok] (len(key) == ((algorithm == "A128CBC-HS256") ? 32 : ((algorithm == "A192CBC-HS384") ? 48 : 64)) && len(nonce) == 16) ==> (err == nil && fresh(ciphertext) && fresh(tag) && len(ciphertext) == len(plaintext) && len(tag) == len(key) / 2)
+//@   ensures [C03.cbchmac.enoout] err != nil ==> (ciphertext == nil && tag == nil)
+//@   at call encryptSymmetricAEAD#0 assert [C03.cbchmac.args] arg1 == plaintext && arg2 == nonce && arg3 == associatedData
+
+//@ func decryptSymmetricAESCBCHMAC
+//@   tags C03 C07 C17
+//@   requires kcCBCHMAC(algorithm)
+//@   modifies nothing
+//@   ensures [C03.cbchmac.dkey] len(key) != ((algorithm == "A128CBC-HS256") ? 32 : ((algorithm == "A192CBC-HS384") ? 48 : 64)) ==> (err == ErrKeyTypeMismatch && plaintext == nil)
+//@   ensures [C03.cbchmac.dnonce] (len(key) == ((algorithm == "A128CBC-HS256") ? 32 : ((algorithm == "A192CBC-HS384") ? 48 : 64)) && len(nonce) != 16) ==> (err == ErrInvalidNonce && plaintext == nil)
+//@   ensures [C03.cbchmac.dtag] (len(key) == ((algorithm == "A128CBC-HS256") ? 32 : ((algorithm == "A192CBC-HS384") ? 48 : 64)) && len(nonce) == 16 && len(tag) != len(key) / 2) ==> (err == ErrInvalidTag && plaintext == nil)
+//@   ensures [C03.cbchmac.dnoout] err != nil ==> plaintext == nil
+//@   ensures [C03.cbchmac.dfresh] plaintext == nil || fresh(plaintext)
+//@   at call decryptSymmetricAEAD#0 assert [C03.cbchmac.dargs] arg1 == ciphertext && arg2 == nonce && arg3 == tag && arg4 == associatedData
+
+// ---- AES-KW ----
+
+//@ func encryptSymmetricAESKW
+//@   tags C03 C07 C17
+//@   requires kcKW(algorithm)
+//@   modifies nothing
+//@   ensures [C03.kw.key] len(key) != kcAESKeySize(algorithm) ==> (err == ErrKeyTypeMismatch && ciphertext == nil)
+//@   ensures [C03.kw.ok] (err == nil) ==> (fresh(ciphertext) && len(ciphertext) == len(plaintext) + 8)
+//@   ensures [C03.kw.len] (len(key) == kcAESKeySize(algorithm) && len(plaintext) % 8 != 0) ==> err != nil
+//@   ensures [C03.kw.noout] err != nil ==> ciphertext == nil
+//@   at call Wrap#0 assert [C03.kw.args] arg1 == plaintext
+
+//@ func decryptSymmetricAESKW
+//@   tags C03 C07 C17
+//@   requires kcKW(algorithm)
+//@   modifies nothing
+//@   ensures [C03.kw.dkey] len(key) != kcAESKeySize(algorithm) ==> (err == ErrKeyTypeMismatch && plaintext == nil)
+//@   ensures [C03.kw.dok] (err == nil) ==> (fresh(plaintext) && len(plaintext) == len(ciphertext) - 8)
+//@   ensures [C03.kw.dnoout] err != nil ==> plaintext == nil
+//@   at call Unwrap#0 assert [C03.kw.dargs] arg1 == ciphertext
+
+// ---- crypto.go: hash selection ----
+// crypto.Hash values: SHA1 = 3, SHA256 = 5, SHA384 = 6, SHA512 = 7.
+
+//@ func getSHAHash
+//@   tags C03 C07 C17
+//@   requires len(alg) >= 3
+//@   modifies nothing
+//@   ensures [C03.sha.map] result == kcSHA(alg)
+//@   ensures [C03.sha.range] result == 0 || result == 5 || result == 6 || result == 7
+
+// ---- asymmetric_enc.go ----
+// key != nil is an explicit precondition of every entry point taking a jwk.Key (a nil interface is a caller error).
+
+//@ func encryptPublicKeyRSAPKCS1v15
+//@   tags C03 C07 C17
+//@   requires key != nil
+//@   modifies nothing
+//@   ensures [C03.rsa.enc15.kind] key.kty != "RSA" ==> (result == nil && result1 == ErrKeyTypeMismatch)
+//@   ensures [C03.rsa.enc15.noout] result1 != nil ==> result == nil
+//@   ensures [C03.rsa.enc15.fresh] result == nil || fresh(result)
+//@   at call EncryptPKCS1v15#0 assert [C03.rsa.enc15.args] arg2 == plaintext
+
+//@ func encryptPublicKeyRSAOAEP
+//@   tags C03 C07 C17
+//@   requires key != nil
+//@   requires hash == 3 || hash == 5 || hash == 6 || hash == 7
+//@   modifies nothing
+//@   ensures [C03.rsa.encoaep.kind] key.kty != "RSA" ==> (result == nil && result1 == ErrKeyTypeMismatch)
+//@   ensures [C03.rsa.encoaep.noout] result1 != nil ==> result == nil
+//@   ensures [C03.rsa.encoaep.fresh] result == nil || fresh(result)
+//@   at before call New#0 assert [C03.rsa.encoaep.hash] arg0 == hash
+//@   at call EncryptOAEP#0 assert [C03.rsa.encoaep.args] arg3 == plaintext && arg4 == label
+
+//@ func decryptPrivateKeyRSAPKCS1v15
+//@   tags C03 C07 C17
+//@   requires key != nil
+//@   modifies nothing
+//@   ensures [C03.rsa.dec15.kind] key.kty != "RSA" ==> (result == nil && result1 == ErrKeyTypeMismatch)
+//@   ensures [C03.rsa.dec15.noout] result1 != nil ==> result == nil
+//@   ensures [C03.rsa.dec15.fresh] result == nil || fresh(result)
+//@   at call DecryptPKCS1v15#0 assert [C03.rsa.dec15.args] arg2 == ciphertext
+
+//@ func decryptPrivateKeyRSAOAEP
+//@   tags C03 C07 C17
+//@   requires key != nil
+//@   requires hash == 3 || hash == 5 || hash == 6 || hash == 7
+//@   modifies nothing
+//@   ensures [C03.rsa.decoaep.kind] key.kty != "RSA" ==> (result == nil && result1 == ErrKeyTypeMismatch)
+//@   ensures [C03.rsa.decoaep.noout] result1 != nil ==> result == nil
+//@   ensures [C03.rsa.decoaep.fresh] result == nil || fresh(result)
+//@   at before call New#0 assert [C03.rsa.decoaep.hash] arg0 == hash
+//@   at call DecryptOAEP#0 assert [C03.rsa.decoaep.args] arg3 == ciphertext && arg4 == label
+
+//@ func EncryptPublicKey
+//@   tags C03 C07 C17
+//@   ghost pkerr error
+//@   ghost impl int
+//@   ghost rct slice
+//@   ghost rerr error
+//@   requires key != nil
+//@   modifies nothing
+//@   ensures [C03.dispatch.pkenc.other] !kcAsymEnc(algorithm) ==> (ciphertext == nil && (err == ErrUnsupportedAlgorithm || err == ErrKeyTypeMismatch))
+//@   ensures [C03.dispatch.pkenc.noout] err != nil ==> ciphertext == nil
+//@   ensures [C03.dispatch.pkenc.fresh] ciphertext == nil || fresh(ciphertext)
+//@   at call PublicKey#0 ghost pkerr = res1
+//@   at call encryptPublicKeyRSAPKCS1v15#0 ghost impl = 1
+//@   at call encryptPublicKeyRSAPKCS1v15#0 ghost rct = res0
+//@   at call encryptPublicKeyRSAPKCS1v15#0 ghost rerr = res1
+//@   at call encryptPublicKeyRSAPKCS1v15#0 assert [C03.dispatch.pkenc.only15] algorithm == "RSA1_5" && arg0 == plaintext
+//@   at call encryptPublicKeyRSAOAEP ghost impl = 2
+//@   at call encryptPublicKeyRSAOAEP ghost rct = res0
+//@   at call encryptPublicKeyRSAOAEP ghost rerr = res1
+//@   at call encryptPublicKeyRSAOAEP assert [C03.dispatch.pkenc.onlyoaep] (algorithm == "RSA-OAEP" || algorithm == "RSA-OAEP-256" || algorithm == "RSA-OAEP-384" || algorithm == "RSA-OAEP-512") && arg0 == plaintext && arg3 == associatedData
+//@   at call encryptPublicKeyRSAOAEP assert [C03.dispatch.pkenc.hash] arg2 == ((algorithm == "RSA-OAEP") ? 3 : ((algorithm == "RSA-OAEP-256") ? 5 : ((algorithm == "RSA-OAEP-384") ? 6 : 7)))
+//@   ensures [C03.dispatch.pkenc.keyerr] pkerr != nil ==> (err == ErrKeyTypeMismatch && ciphertext == nil)
+//@   ensures [C03.dispatch.pkenc.unsupported] (pkerr == nil && !kcAsymEnc(algorithm)) ==> (err == ErrUnsupportedAlgorithm && ciphertext == nil)
+//@   ensures [C03.dispatch.pkenc.reach] (pkerr == nil && kcAsymEnc(algorithm)) ==> (impl == ((algorithm == "RSA1_5") ? 1 : 2) && ciphertext == rct && err == rerr)
+
+//@ func DecryptPrivateKey
+//@   tags C03 C07 C17
+//@   ghost impl int
+//@   ghost rpt slice
+//@   ghost rerr error
+//@   requires key != nil
+//@   modifies nothing
+//@   ensures [C03.dispatch.pkdec.unsupported] !kcAsymEnc(algorithm) ==> (plaintext == nil && err == ErrUnsupportedAlgorithm)
+//@   ensures [C03.dispatch.pkdec.kind] (kcAsymEnc(algorithm) && key.kty != "RSA") ==> (plaintext == nil && err == ErrKeyTypeMismatch)
+//@   ensures [C03.dispatch.pkdec.noout] err != nil ==> plaintext == nil
+//@   ensures [C03.dispatch.pkdec.fresh] plaintext == nil || fresh(plaintext)
+//@   at call decryptPrivateKeyRSAPKCS1v15#0 ghost impl = 1
+//@   at call decryptPrivateKeyRSAPKCS1v15#0 ghost rpt = res0
+//@   at call decryptPrivateKeyRSAPKCS1v15#0 ghost rerr = res1
+//@   at call decryptPrivateKeyRSAPKCS1v15#0 assert [C03.dispatch.pkdec.only15] algorithm == "RSA1_5" && arg0 == ciphertext && arg1 == key
+//@   at call decryptPrivateKeyRSAOAEP ghost impl = 2
+//@   at call decryptPrivateKeyRSAOAEP ghost rpt = res0
+//@   at call decryptPrivateKeyRSAOAEP ghost rerr = res1
+//@   at call decryptPrivateKeyRSAOAEP assert [C03.dispatch.pkdec.onlyoaep] (algorithm == "RSA-OAEP" || algorithm == "RSA-OAEP-256" || algorithm == "RSA-OAEP-384" || algorithm == "RSA-OAEP-512") && arg0 == ciphertext && arg1 == key && arg3 == associatedData
+//@   at call decryptPrivateKeyRSAOAEP assert [C03.dispatch.pkdec.hash] arg2 == ((algorithm == "RSA-OAEP") ? 3 : ((algorithm == "RSA-OAEP-256") ? 5 : ((algorithm == "RSA-OAEP-384") ? 6 : 7)))
+//@   ensures [C03.dispatch.pkdec.reach] kcAsymEnc(algorithm) ==> (impl == ((algorithm == "RSA1_5") ? 1 : 2) && plaintext == rpt && err == rerr)
+
+// ---- asymmetric_sig.go ----
+
+//@ func signPrivateKeyRSAPKCS1v15
+//@   tags C03 C07 C17
+//@   requires key != nil
+//@   requires hash == 5 || hash == 6 || hash == 7
+//@   modifies nothing
+//@   ensures [C03.sig.rs.kind] key.kty != "RSA" ==> (result == nil && result1 == ErrKeyTypeMismatch)
+//@   ensures [C03.sig.rs.noout] result1 != nil ==> result == nil
+//@   ensures [C03.sig.rs.fresh] result == nil || fresh(result)
+//@   at call SignPKCS1v15#0 assert [C03.sig.rs.args] arg2 == hash && arg3 == digest
+
+//@ func signPrivateKeyRSAPSS
+//@   tags C03 C07 C17
+//@   requires key != nil
+//@   requires hash == 5 || hash == 6 || hash == 7
+//@   modifies nothing
+//@   ensures [C03.sig.ps.kind] key.kty != "RSA" ==> (result == nil && result1 == ErrKeyTypeMismatch)
+//@   ensures [C03.sig.ps.noout] result1 != nil ==> result == nil
+//@   ensures [C03.sig.ps.fresh] result == nil || fresh(result)
+//@   at call SignPSS#0 assert [C03.sig.ps.args] arg2 == hash && arg3 == digest
+
+//@ func signPrivateKeyECDSA
+//@   tags C03 C07 C17
+//@   requires key != nil
+//@   modifies nothing
+//@   ensures [C03.sig.es.kind] key.kty != "EC" ==> (result == nil && result1 == ErrKeyTypeMismatch)
+//@   ensures [C03.sig.es.noout] result1 != nil ==> result == nil
+//@   ensures [C03.sig.es.fresh] result == nil || fresh(result)
+//@   at call SignASN1#0 assert [C03.sig.es.args] arg2 == digest
+
+//@ func signPrivateKeyEdDSA
+//@   tags C03 C07 C17
+//@   requires key != nil
+//@   modifies nothing
+//@   ensures [C03.sig.ed.kind] (key.kty != "OKP" || key.crv != "Ed25519") ==> (result == nil && result1 == ErrKeyTypeMismatch)
+//@   ensures [C03.sig.ed.errs] result1 == nil || result1 == ErrKeyTypeMismatch
+//@   ensures [C03.sig.ed.ok] result1 == nil ==> (fresh(result) && len(result) == 64)
+//@   ensures [C03.sig.ed.noout] result1 != nil ==> result == nil
+//@   at call Sign#0 assert [C03.sig.ed.args] arg1 == message
+
+//@ func SignPrivateKey
+//@   tags C03 C07 C17
+//@   ghost impl int
+//@   ghost rsig slice
+//@   ghost rerr error
+//@   requires key != nil
+//@   modifies nothing
+//@   ensures [C03.dispatch.sign.unsupported] !kcSignature(algorithm) ==> (signature == nil && err == ErrUnsupportedAlgorithm)
+//@   ensures [C03.dispatch.sign.kind.rsa] ((kcSigRSA(algorithm) || kcSigPSS(algorithm)) && key.kty != "RSA") ==> (signature == nil && err == ErrKeyTypeMismatch)
+//@   ensures [C03.dispatch.sign.kind.ec] (kcSigEC(algorithm) && key.kty != "EC") ==> (signature == nil && err == ErrKeyTypeMismatch)
+//@   ensures [C03.dispatch.sign.kind.ed] (algorithm == "EdDSA" && (key.kty != "OKP" || key.crv != "Ed25519")) ==> (signature == nil && err == ErrKeyTypeMismatch)
+//@   ensures [C03.dispatch.sign.noout] err != nil ==> signature == nil
+//@   ensures [C03.dispatch.sign.fresh] signature == nil || fresh(signature)
+//@   at call signPrivateKeyRSAPKCS1v15#0 ghost impl = 1
+//@   at call signPrivateKeyRSAPKCS1v15#0 ghost rsig = res0
+//@   at call signPrivateKeyRSAPKCS1v15#0 ghost rerr = res1
+//@   at call signPrivateKeyRSAPKCS1v15#0 assert [C03.dispatch.sign.onlyrs] kcSigRSA(algorithm) && arg0 == digest && arg1 == kcSHA(algorithm) && arg2 == key
+//@   at call signPrivateKeyRSAPSS#0 ghost impl = 2
+//@   at call signPrivateKeyRSAPSS#0 ghost rsig = res0
+//@   at call signPrivateKeyRSAPSS#0 ghost rerr = res1
+//@   at call signPrivateKeyRSAPSS#0 assert [C03.dispatch.sign.onlyps] kcSigPSS(algorithm) && arg0 == digest && arg1 == kcSHA(algorithm) && arg2 == key
+//@   at call signPrivateKeyECDSA#0 ghost impl = 3
+//@   at call signPrivateKeyECDSA#0 ghost rsig = res0
+//@   at call signPrivateKeyECDSA#0 ghost rerr = res1
+//@   at call signPrivateKeyECDSA#0 assert [C03.dispatch.sign.onlyes] kcSigEC(algorithm) && arg0 == digest && arg1 == key
+//@   at call signPrivateKeyEdDSA#0 ghost impl = 4
+//@   at call signPrivateKeyEdDSA#0 ghost rsig = res0
+//@   at call signPrivateKeyEdDSA#0 ghost rerr = res1
+//@   at call signPrivateKeyEdDSA#0 assert [C03.dispatch.sign.onlyed] algorithm == "EdDSA" && arg0 == digest && arg1 == key
+//@   ensures [C03.dispatch.sign.reach] kcSignature(algorithm) ==> (impl == (kcSigRSA(algorithm) ? 1 : (kcSigPSS(algorithm) ? 2 : (kcSigEC(algorithm) ? 3 : 4))) && signature == rsig && err == rerr)
+
+//@ func verifyPublicKeyRSAPKCS1v15
+//@   tags C03 C07 C17
+//@   ghost verr error
+//@   requires key != nil
+//@   requires hash == 5 || hash == 6 || hash == 7
+//@   modifies nothing
+//@   ensures [C03.ver.rs.kind] key.kty != "RSA" ==> (!result && result1 == ErrKeyTypeMismatch)
+//@   ensures [C03.ver.rs.valid] result ==> result1 == nil
+//@   at call VerifyPKCS1v15#0 ghost verr = res0
+//@   at call VerifyPKCS1v15#0 assert [C03.ver.rs.args] arg1 == hash && arg2 == digest && arg3 == signature
+//@   ensures [C03.ver.rs.fail] (key.kty == "RSA" && result1 != ErrKeyTypeMismatch && verr == rsa.ErrVerification) ==> (!result && result1 == nil)
+//@   ensures [C03.ver.rs.ok] (result1 != ErrKeyTypeMismatch && verr == nil) ==> (result && result1 == nil)
+
+//@ func verifyPublicKeyRSAPSS
+//@   tags C03 C07 C17
+//@   ghost verr error
+//@   requires key != nil
+//@   requires hash == 5 || hash == 6 || hash == 7
+//@   modifies nothing
+//@   ensures [C03.ver.ps.kind] key.kty != "RSA" ==> (!result && result1 == ErrKeyTypeMismatch)
+//@   ensures [C03.ver.ps.valid] result ==> result1 == nil
+//@   at call VerifyPSS#0 ghost verr = res0
+//@   at call VerifyPSS#0 assert [C03.ver.ps.args] arg1 == hash && arg2 == digest && arg3 == signature
+//@   ensures [C03.ver.ps.fail] (key.kty == "RSA" && result1 != ErrKeyTypeMismatch && verr == rsa.ErrVerification) ==> (!result && result1 == nil)
+//@   ensures [C03.ver.ps.ok] (result1 != ErrKeyTypeMismatch && verr == nil) ==> (result && result1 == nil)
+
+//@ func verifyPublicKeyECDSA
+//@   tags C03 C07 C17
+//@   ghost vok bool
+//@   requires key != nil
+//@   modifies nothing
+//@   ensures [C03.ver.es.kind] key.kty != "EC" ==> (!result && result1 == ErrKeyTypeMismatch)
+//@   ensures [C03.ver.es.errs] result1 == nil || result1 == ErrKeyTypeMismatch
+//@   ensures [C03.ver.es.valid] result ==> result1 == nil
+//@   at call VerifyASN1#0 ghost vok = res0
+//@   at call VerifyASN1#0 assert [C03.ver.es.args] arg1 == digest && arg2 == signature
+//@   ensures [C03.ver.es.map] result1 == nil ==> result == vok
+
+//@ func verifyPublicKeyEdDSA
+//@   tags C03 C07 C17
+//@   ghost vok bool
+//@   requires key != nil
+//@   modifies nothing
+//@   ensures [C03.ver.ed.kind] (key.kty != "OKP" || key.crv != "Ed25519") ==> (!result && result1 == ErrKeyTypeMismatch)
+//@   ensures [C03.ver.ed.errs] result1 == nil || result1 == ErrKeyTypeMismatch
+//@   ensures [C03.ver.ed.valid] result ==> result1 == nil
+//@   at call Verify#0 ghost vok = res0
+//@   at call Verify#0 assert [C03.ver.ed.args] arg1 == mesage && arg2 == signature
+//@   replay template eddsaverify
+//@   replay val xlen = key.okpx
+//@   ensures [C03.ver.ed.map] result1 == nil ==> result == vok
+
+//@ func VerifyPublicKey
+//@   tags C03 C07 C17
+//@   ghost pkerr error
+//@   ghost impl int
+//@   ghost rvalid bool
+//@   ghost rerr error
+//@   requires key != nil
+//@   modifies nothing
+//@   ensures [C03.dispatch.verify.other] !kcSignature(algorithm) ==> (!valid && (err == ErrUnsupportedAlgorithm || err == ErrKeyTypeMismatch))
+//@   ensures [C03.dispatch.verify.valid] valid ==> err == nil
+//@   at call PublicKey#0 ghost pkerr = res1
+//@   at call verifyPublicKeyRSAPKCS1v15#0 ghost impl = 1
+//@   at call verifyPublicKeyRSAPKCS1v15#0 ghost rvalid = res0
+//@   at call verifyPublicKeyRSAPKCS1v15#0 ghost rerr = res1
+//@   at call verifyPublicKeyRSAPKCS1v15#0 assert [C03.dispatch.verify.onlyrs] kcSigRSA(algorithm) && arg0 == digest && arg1 == signature && arg2 == kcSHA(algorithm)
+//@   at call verifyPublicKeyRSAPSS#0 ghost impl = 2
+//@   at call verifyPublicKeyRSAPSS#0 ghost rvalid = res0
+//@   at call verifyPublicKeyRSAPSS#0 ghost rerr = res1
+//@   at call verifyPublicKeyRSAPSS#0 assert [C03.dispatch.verify.onlyps] kcSigPSS(algorithm) && arg0 == digest && arg1 == signature && arg2 == kcSHA(algorithm)
+//@   at call verifyPublicKeyECDSA#0 ghost impl = 3
+//@   at call verifyPublicKeyECDSA#0 ghost rvalid = res0
+//@   at call verifyPublicKeyECDSA#0 ghost rerr = res1
+//@   at call verifyPublicKeyECDSA#0 assert [C03.dispatch.verify.onlyes] kcSigEC(algorithm) && arg0 == digest && arg1 == signature
+//@   at call verifyPublicKeyEdDSA#0 ghost impl = 4
+//@   at call verifyPublicKeyEdDSA#0 ghost rvalid = res0
+//@   at call verifyPublicKeyEdDSA#0 ghost rerr = res1
+//@   at call verifyPublicKeyEdDSA#0 assert [C03.dispatch.verify.onlyed] algorithm == "EdDSA" && arg0 == digest && arg1 == signature
+//@   ensures [C03.dispatch.verify.keyerr] pkerr != nil ==> (err == ErrKeyTypeMismatch && !valid)
+//@   ensures [C03.dispatch.verify.unsupported] (pkerr == nil && !kcSignature(algorithm)) ==> (err == ErrUnsupportedAlgorithm && !valid)
+//@   ensures [C03.dispatch.verify.reach] (pkerr == nil && kcSignature(algorithm)) ==> (impl == (kcSigRSA(algorithm) ? 1 : (kcSigPSS(algorithm) ? 2 : (kcSigEC(algorithm) ? 3 : 4))) && valid == rvalid && err == rerr)
+
+// ---- symmetric.go: entry points ----
+// key.kty / key.octets: abstract state of the jwk.Key (libspec crypto_pkg.spec); key.octets is the key's own memory.
+// Error precedence: EncryptSymmetric / DecryptSymmetric / EncryptPublicKey / VerifyPublicKey examine the key before the
+// algorithm, so an unknown algorithm together with an unusable key yields ErrKeyTypeMismatch, not ErrUnsupportedAlgorithm.
+// C03(a) "every other string => ErrUnsupportedAlgorithm" is therefore stated under "the key is usable"
+// (*.unsupported), and unconditionally as "ErrUnsupportedAlgorithm or ErrKeyTypeMismatch, no output" (*.other).
+// "Reaches the implementation" is stated with the ghost impl (set at the call of the implementation) and the ghosts
+// r* (its results): for a supported name the results are exactly the implementation's results (*.reach).
+
+//@ func EncryptSymmetric
+//@   tags C03 C07 C17
+//@   ghost impl int
+//@   ghost rct slice
+//@   ghost rtag slice
+//@   ghost rerr error
+//@   requires key != nil
+//@   modifies nothing
+//@   ensures [C03.dispatch.symenc.kind] key.kty != "oct" ==> (err == ErrKeyTypeMismatch && ciphertext == nil && tag == nil)
+//@   ensures [C03.dispatch.symenc.unsupported] (key.kty == "oct" && !kcSymmetric(algorithm)) ==> (err == ErrUnsupportedAlgorithm && ciphertext == nil && tag == nil)
+//@   ensures [C03.dispatch.symenc.noout] err != nil ==> (ciphertext == nil && tag == nil)
+//@   ensures [C03.dispatch.symenc.fresh] (ciphertext == nil || fresh(ciphertext)) && (tag == nil || fresh(tag))
+//@   ensures [C03.dispatch.symenc.reach] (key.kty == "oct" && kcSymmetric(algorithm)) ==> (impl == ((kcCBCPad(algorithm) || kcCBCNoPad(algorithm)) ? 1 : (kcGCM(algorithm) ? 2 : (kcCBCHMAC(algorithm) ? 3 : (kcKW(algorithm) ? 4 : 5)))) && ciphertext == rct && err == rerr)
+//@   ensures [C03.dispatch.symenc.reach.tag] (key.kty == "oct" && (kcGCM(algorithm) || kcCBCHMAC(algorithm) || kcChaCha(algorithm))) ==> tag == rtag
+//@   ensures [C03.symenc.key] (key.kty == "oct" && kcSymmetric(algorithm) && !kcKeyLenOK(algorithm, len(key.octets))) ==> err == ErrKeyTypeMismatch
+//@   ensures [C03.symenc.nonce] (key.kty == "oct" && kcSymmetric(algorithm) && !kcKW(algorithm) && kcKeyLenOK(algorithm, len(key.octets)) && len(nonce) != kcNonceLen(algorithm)) ==> err == ErrInvalidNonce
+//@   ensures [C03.symenc.ptlen] (key.kty == "oct" && kcCBCNoPad(algorithm) && kcKeyLenOK(algorithm, len(key.octets)) && len(nonce) == 16 && len(plaintext) % 16 != 0) ==> err == ErrInvalidPlaintextLength
+//@   ensures [C03.symenc.ok] (key.kty == "oct" && kcSymmetric(algorithm) && !kcKW(algorithm) && kcKeyLenOK(algorithm, len(key.octets)) && len(nonce) == kcNonceLen(algorithm) && (kcCBCNoPad(algorithm) ==> len(plaintext) % 16 == 0)) ==> err == nil
+//@   ensures [C03.symenc.ok.aead] (err == nil && (kcGCM(algorithm) || kcCBCHMAC(algorithm) || kcChaCha(algorithm))) ==> (len(ciphertext) == len(plaintext) && len(tag) == kcTagLen(algorithm, len(key.octets)))
+//@   ensures [C03.symenc.ok.cbc] (err == nil && (kcCBCPad(algorithm) || kcCBCNoPad(algorithm))) ==> (tag == nil && len(ciphertext) == (kcCBCNoPad(algorithm) ? len(plaintext) : len(plaintext) + 16 - len(plaintext) % 16))
+//@   ensures [C03.symenc.ok.kw] (err == nil && kcKW(algorithm)) ==> (tag == nil && len(ciphertext) == len(plaintext) + 8)
+//@   at call encryptSymmetricAESCBC#0 ghost impl = 1
+//@   at call encryptSymmetricAESCBC#0 ghost rct = res0
+//@   at call encryptSymmetricAESCBC#0 ghost rerr = res1
+//@   at call encryptSymmetricAESCBC#0 assert [C03.dispatch.symenc.onlycbc] (kcCBCPad(algorithm) || kcCBCNoPad(algorithm)) && arg0 == plaintext && arg1 == algorithm && arg2 == key.octets && arg3 == nonce
+//@   at call encryptSymmetricAESGCM#0 ghost impl = 2
+//@   at call encryptSymmetricAESGCM#0 ghost rct = res0
+//@   at call encryptSymmetricAESGCM#0 ghost rtag = res1
+//@   at call encryptSymmetricAESGCM#0 ghost rerr = res2
+//@   at call encryptSymmetricAESGCM#0 assert [C03.dispatch.symenc.onlygcm] kcGCM(algorithm) && arg0 == plaintext && arg1 == algorithm && arg2 == key.octets && arg3 == nonce && arg4 == associatedData
+//@   at call encryptSymmetricAESCBCHMAC#0 ghost impl = 3
+//@   at call encryptSymmetricAESCBCHMAC#0 ghost rct = res0
+//@   at call encryptSymmetricAESCBCHMAC#0 ghost rtag = res1
+//@   at call encryptSymmetricAESCBCHMAC#0 ghost rerr = res2
+//@   at call encryptSymmetricAESCBCHMAC#0 assert [C03.dispatch.symenc.onlycbchmac] kcCBCHMAC(algorithm) && arg0 == plaintext && arg1 == algorithm && arg2 == key.octets && arg3 == nonce && arg4 == associatedData
+//@   at call encryptSymmetricAESKW#0 ghost impl = 4
+//@   at call encryptSymmetricAESKW#0 ghost rct = res0
+//@   at call encryptSymmetricAESKW#0 ghost rerr = res1
+//@   at call encryptSymmetricAESKW#0 assert [C03.dispatch.symenc.onlykw] kcKW(algorithm) && arg0 == plaintext && arg1 == algorithm && arg2 == key.octets
+//@   at call encryptSymmetricChaCha20Poly1305#0 ghost impl = 5
+//@   at call encryptSymmetricChaCha20Poly1305#0 ghost rct = res0
+//@   at call encryptSymmetricChaCha20Poly1305#0 ghost rtag = res1
+//@   at call encryptSymmetricChaCha20Poly1305#0 ghost rerr = res2
+//@   at call encryptSymmetricChaCha20Poly1305#0 assert [C03.dispatch.symenc.onlychacha] kcChaCha(algorithm) && arg0 == plaintext && arg1 == algorithm && arg2 == key.octets && arg3 == nonce && arg4 == associatedData
+
+//@ func DecryptSymmetric
+//@   tags C03 C07 C17
+//@   ghost impl int
+//@   ghost rpt slice
+//@   ghost rerr error
+//@   requires key != nil
+//@   modifies nothing
+//@   ensures [C03.dispatch.symdec.kind] key.kty != "oct" ==> (err == ErrKeyTypeMismatch && plaintext == nil)
+//@   ensures [C03.dispatch.symdec.unsupported] (key.kty == "oct" && !kcSymmetric(algorithm)) ==> (err == ErrUnsupportedAlgorithm && plaintext == nil)
+//@   ensures [C03.dispatch.symdec.noout] err != nil ==> plaintext == nil
+//@   ensures [C03.dispatch.symdec.fresh] !kcCBCPad(algorithm) ==> (plaintext == nil || fresh(plaintext))
+//@   ensures [C03.dispatch.symdec.reach] (key.kty == "oct" && kcSymmetric(algorithm)) ==> (impl == ((kcCBCPad(algorithm) || kcCBCNoPad(algorithm)) ? 1 : (kcGCM(algorithm) ? 2 : (kcCBCHMAC(algorithm) ? 3 : (kcKW(algorithm) ? 4 : 5)))) && plaintext == rpt && err == rerr)
+//@   ensures [C03.symdec.key] (key.kty == "oct" && kcSymmetric(algorithm) && !kcKeyLenOK(algorithm, len(key.octets))) ==> err == ErrKeyTypeMismatch
+//@   ensures [C03.symdec.nonce] (key.kty == "oct" && kcSymmetric(algorithm) && !kcKW(algorithm) && kcKeyLenOK(algorithm, len(key.octets)) && len(nonce) != kcNonceLen(algorithm)) ==> err == ErrInvalidNonce
+//@   ensures [C03.symdec.tag] (key.kty == "oct" && (kcGCM(algorithm) || kcCBCHMAC(algorithm) || kcChaCha(algorithm)) && kcKeyLenOK(algorithm, len(key.octets)) && len(nonce) == kcNonceLen(algorithm) && len(tag) != kcTagLen(algorithm, len(key.octets))) ==> err == ErrInvalidTag
+//@   ensures [C03.symdec.ctlen] (key.kty == "oct" && (kcCBCPad(algorithm) || kcCBCNoPad(algorithm)) && kcKeyLenOK(algorithm, len(key.octets)) && len(nonce) == 16 && len(ciphertext) % 16 != 0) ==> err == ErrInvalidCiphertextLength
+//@   ensures [C03.symdec.ok.nopad] (key.kty == "oct" && kcCBCNoPad(algorithm) && kcKeyLenOK(algorithm, len(key.octets)) && len(nonce) == 16 && len(ciphertext) % 16 == 0) ==> (err == nil && len(plaintext) == len(ciphertext))
+//@   at call decryptSymmetricAESCBC#0 ghost impl = 1
+//@   at call decryptSymmetricAESCBC#0 ghost rpt = res0
+//@   at call decryptSymmetricAESCBC#0 ghost rerr = res1
+//@   at call decryptSymmetricAESCBC#0 assert [C03.dispatch.symdec.onlycbc] (kcCBCPad(algorithm) || kcCBCNoPad(algorithm)) && arg0 == ciphertext && arg1 == algorithm && arg2 == key.octets && arg3 == nonce
+//@   at call decryptSymmetricAESGCM#0 ghost impl = 2
+//@   at call decryptSymmetricAESGCM#0 ghost rpt = res0
+//@   at call decryptSymmetricAESGCM#0 ghost rerr = res1
+//@   at call decryptSymmetricAESGCM#0 assert [C03.dispatch.symdec.onlygcm] kcGCM(algorithm) && arg0 == ciphertext && arg1 == algorithm && arg2 == key.octets && arg3 == nonce && arg4 == tag && arg5 == associatedData
+//@   at call decryptSymmetricAESCBCHMAC#0 ghost impl = 3
+//@   at call decryptSymmetricAESCBCHMAC#0 ghost rpt = res0
+//@   at call decryptSymmetricAESCBCHMAC#0 ghost rerr = res1
+//@   at call decryptSymmetricAESCBCHMAC#0 assert [C03.dispatch.symdec.onlycbchmac] kcCBCHMAC(algorithm) && arg0 == ciphertext && arg1 == algorithm && arg2 == key.octets && arg3 == nonce && arg4 == tag && arg5 == associatedData
+//@   at call decryptSymmetricAESKW#0 ghost impl = 4
+//@   at call decryptSymmetricAESKW#0 ghost rpt = res0
+//@   at call decryptSymmetricAESKW#0 ghost rerr = res1
+//@   at call decryptSymmetricAESKW#0 assert [C03.dispatch.symdec.onlykw] kcKW(algorithm) && arg0 == ciphertext && arg1 == algorithm && arg2 == key.octets
+//@   at call decryptSymmetricChaCha20Poly1305#0 ghost impl = 5
+//@   at call decryptSymmetricChaCha20Poly1305#0 ghost rpt = res0
+//@   at call decryptSymmetricChaCha20Poly1305#0 ghost rerr = res1
+//@   at call decryptSymmetricChaCha20Poly1305#0 assert [C03.dispatch.symdec.onlychacha] kcChaCha(algorithm) && arg0 == ciphertext && arg1 == algorithm && arg2 == key.octets && arg3 == nonce && arg4 == tag && arg5 == associatedData
+
+// ---- crypto.go: generic entry points ----
+
+//@ func Encrypt
+//@   tags C03 C07 C17
+//@   ghost impl int
+//@   ghost rct slice
+//@   ghost rtag slice
+//@   ghost rerr error
+//@   requires key != nil
+//@   modifies nothing
+//@   ensures [C03.dispatch.enc.other] (!kcSymmetric(algorithm) && !kcAsymEnc(algorithm)) ==> (ciphertext == nil && tag == nil && (err == ErrUnsupportedAlgorithm || err == ErrKeyTypeMismatch))
+//@   ensures [C03.dispatch.enc.noout] err != nil ==> (ciphertext == nil && tag == nil)
+//@   ensures [C03.dispatch.enc.fresh] (ciphertext == nil || fresh(ciphertext)) && (tag == nil || fresh(tag))
+//@   at call EncryptSymmetric#0 ghost impl = 1
+//@   at call EncryptSymmetric#0 ghost rct = res0
+//@   at call EncryptSymmetric#0 ghost rtag = res1
+//@   at call EncryptSymmetric#0 ghost rerr = res2
+//@   at call EncryptSymmetric#0 assert [C03.dispatch.enc.symargs] arg0 == plaintext && arg1 == algorithm && arg2 == key && arg3 == nonce && arg4 == associatedData
+//@   at call EncryptPublicKey#0 ghost impl = 2
+//@   at call EncryptPublicKey#0 ghost rct = res0
+//@   at call EncryptPublicKey#0 ghost rerr = res1
+//@   at call EncryptPublicKey#0 assert [C03.dispatch.enc.asymargs] arg0 == plaintext && arg1 == algorithm && arg2 == key && arg3 == associatedData
+//@   ensures [C03.dispatch.enc.sym] (algorithm == "A128CBC" || algorithm == "A192CBC" || algorithm == "A256CBC" || algorithm == "A128CBC-NOPAD" || algorithm == "A192CBC-NOPAD" || algorithm == "A256CBC-NOPAD" || algorithm == "A128GCM" || algorithm == "A192GCM" || algorithm == "A256GCM" || algorithm == "A128CBC-HS256" || algorithm == "A192CBC-HS384" || algorithm == "A256CBC-HS512" || algorithm == "A128KW" || algorithm == "A192KW" || algorithm == "A256KW" || algorithm == "C20P" || algorithm == "C20PKW" || algorithm == "XC20P" || algorithm == "XC20PKW") ==> impl == 1     // the names of SupportedSymmetricAlgorithms(), spelled out so that the counterexample query keeps them
+//@   ensures [C03.dispatch.enc.asym] kcAsymEnc(algorithm) ==> impl == 2
+//@   at return #0 assert [C03.dispatch.enc.symres] impl == 1 && ciphertext == rct && tag == rtag && err == rerr
+//@   at return #1 assert [C03.dispatch.enc.asymres] impl == 2 && ciphertext == rct && tag == nil && err == rerr
+//@   replay template dispatch
+//@   replay val decrypt = false
+//@   replay val alen = len(algorithm)
+//@   replay val c0 = algorithm[0]
+//@   replay val c1 = algorithm[1]
+//@   replay val c2 = algorithm[2]
+//@   replay val c3 = algorithm[3]
+//@   replay val c4 = algorithm[4]
+//@   replay val c5 = algorithm[5]
+//@   replay val c6 = algorithm[6]
+//@   replay val c7 = algorithm[7]
+//@   replay val c8 = algorithm[8]
+//@   replay val c9 = algorithm[9]
+//@   replay val c10 = algorithm[10]
+//@   replay val c11 = algorithm[11]
+//@   replay val c12 = algorithm[12]
+//@   replay val c13 = algorithm[13]
+//@   replay val c14 = algorithm[14]
+//@   replay val c15 = algorithm[15]
+
+//@ func Decrypt
+//@   tags C03 C07 C17
+//@   ghost impl int
+//@   ghost rpt slice
+//@   ghost rerr error
+//@   requires key != nil
+//@   modifies nothing
+//@   ensures [C03.dispatch.dec.other] (!kcSymmetric(algorithm) && !kcAsymEnc(algorithm)) ==> (plaintext == nil && (err == ErrUnsupportedAlgorithm || err == ErrKeyTypeMismatch))
+//@   ensures [C03.dispatch.dec.noout] err != nil ==> plaintext == nil
+//@   at call DecryptSymmetric#0 ghost impl = 1
+//@   at call DecryptSymmetric#0 ghost rpt = res0
+//@   at call DecryptSymmetric#0 ghost rerr = res1
+//@   at call DecryptSymmetric#0 assert [C03.dispatch.dec.symargs] arg0 == ciphertext && arg1 == algorithm && arg2 == key && arg3 == nonce && arg4 == tag && arg5 == associatedData
+//@   at call DecryptPrivateKey#0 ghost impl = 2
+//@   at call DecryptPrivateKey#0 ghost rpt = res0
+//@   at call DecryptPrivateKey#0 ghost rerr = res1
+//@   at call DecryptPrivateKey#0 assert [C03.dispatch.dec.asymargs] arg0 == ciphertext && arg1 == algorithm && arg2 == key && arg3 == associatedData
+//@   ensures [C03.dispatch.dec.sym] (algorithm == "A128CBC" || algorithm == "A192CBC" || algorithm == "A256CBC" || algorithm == "A128CBC-NOPAD" || algorithm == "A192CBC-NOPAD" || algorithm == "A256CBC-NOPAD" || algorithm == "A128GCM" || algorithm == "A192GCM" || algorithm == "A256GCM" || algorithm == "A128CBC-HS256" || algorithm == "A192CBC-HS384" || algorithm == "A256CBC-HS512" || algorithm == "A128KW" || algorithm == "A192KW" || algorithm == "A256KW" || algorithm == "C20P" || algorithm == "C20PKW" || algorithm == "XC20P" || algorithm == "XC20PKW") ==> impl == 1     // the names of SupportedSymmetricAlgorithms(), spelled out so that the counterexample query keeps them
+//@   ensures [C03.dispatch.dec.asym] kcAsymEnc(algorithm) ==> impl == 2
+//@   at return #0 assert [C03.dispatch.dec.symres] impl == 1 && plaintext == rpt && err == rerr
+//@   at return #1 assert [C03.dispatch.dec.asymres] impl == 2 && plaintext == rpt && err == rerr
+//@   replay template dispatch
+//@   replay val decrypt = true
+//@   replay val alen = len(algorithm)
+//@   replay val c0 = algorithm[0]
+//@   replay val c1 = algorithm[1]
+//@   replay val c2 = algorithm[2]
+//@   replay val c3 = algorithm[3]
+//@   replay val c4 = algorithm[4]
+//@   replay val c5 = algorithm[5]
+//@   replay val c6 = algorithm[6]
+//@   replay val c7 = algorithm[7]
+//@   replay val c8 = algorithm[8]
+//@   replay val c9 = algorithm[9]
+//@   replay val c10 = algorithm[10]
+//@   replay val c11 = algorithm[11]
+//@   replay val c12 = algorithm[12]
+//@   replay val c13 = algorithm[13]
+//@   replay val c14 = algorithm[14]
+//@   replay val c15 = algorithm[15]
+
+// ---- keys.go ----
+
+//@ func SerializeKey
+//@   tags C07 C17
+//@   requires key != nil
+//@   modifies nothing
+//@   ensures [C17.serialize.noout] result1 != nil ==> result == nil
+
+//@ func parseSymmetricKey
+//@   tags C07 C17
+//@   modifies nothing
+//@   ensures [C07.parsesym.noout] result1 != nil ==> result == nil
+//@   ensures [C07.parsesym.ok] result1 == nil ==> (result != nil && result.kty == "oct")
+
+//@ func ParseKey
+//@   tags C07 C17
+//@   modifies nothing
+//@   ensures [C07.parsekey.empty] len(raw) == 0 ==> (result == nil && result1 != nil)
+//@   ensures [C07.parsekey.noout] result1 != nil ==> result == nil
+//@   ensures [C07.parsekey.ok] result1 == nil ==> result != nil
